@@ -96,7 +96,7 @@ fn oracles(case: Case, nprod_sig: &str, fails: &mut Vec<(String, String)>) {
         fails.push((sig("data-never-wakes-consumer"), format!("recv() future pending and never woken although {} sample(s) are queued and no producer is inside an operation", case.queue_len())));
     }
     if let Some(d) = &case.lock_fail { fails.push((sig("lock-does-not-block"), d.clone())); }
-    if case.timeout { fails.push((sig("step-timeout"), "a granted step did not reach its next yield point within 10 s".into())); }
+    if case.timeout { fails.push((sig("step-timeout"), "a granted step did not reach its next yield point within the scheduler's step timeout (4 s)".into())); }
     let (created, leaked, multi, clean) = case.finish();
     if !clean { fails.push((sig("teardown-hang"), "threads did not finish after the schedule".into())); }
     else {
